@@ -18,17 +18,9 @@ def rowFound (found : List (Key × Found)) : Option Row → Bool
   | some (.frag f) => dHas found f.keyTuple
   | _ => false
 
-/-- the fall-back rule of `missingRows`: `t.1` (row `i`) and `t.2.2` (row `j`) are left-over contigs of the same input
-    scaffold with a FOUND contig (row `k`) between them, and the single separator is the gap row directly in front of
-    row `j` — a gap row that did NOT separate these two contigs in the input -/
-def FallBackRun (found : List (Key × Found)) (rows : List Row) (t : Run) : Prop :=
-  ∃ i k j x, i < k ∧ k < j ∧ rows[i]? = some (.frag t.1) ∧ rows[j]? = some (.frag t.2.2) ∧
-    rowMissing found rows[i]? = true ∧ rowMissing found rows[j]? = true ∧ rowFound found rows[k]? = true ∧
-    t.2.1 = [x] ∧ rows[j - 1]? = some (.gap x)
-
 /-- where a run of a left-over scaffold comes from -/
 def RunSrc (found : List (Key × Found)) (jg : Option Gap) (rows : List Row) (t : Run) : Prop :=
-  t ∈ gapRuns rows ∨ (∃ j, jg = some j ∧ t.2.1 = [j]) ∨ FallBackRun found rows t
+  t ∈ gapRuns rows ∨ (∃ j, jg = some j ∧ t.2.1 = [j])
 
 def MissInv (found : List (Key × Found)) (jg : Option Gap) (rows : List Row) (s : Nat) (out : List Row)
     (la : Option Nat) : Prop :=
@@ -141,24 +133,13 @@ theorem missStep_inv (b : Build) (rows : List Row) (s : Nat) (row : Row) (hrow :
                   have := h4 (l + 1 + idx) (by omega) (by omega)
                   rw [hk] at this ⊢
                   simpa [rowMissing, rowFound] using this
-                cases hr : rows.getD (s - 1) default with
-                | gap x =>
-                  rw [hr] at hsep
+                cases hj : b.joinGap with
+                | none => rw [hj] at hsep; cases hsep
+                | some j =>
+                  rw [hj] at hsep
                   simp only [Except.ok.injEq] at hsep
                   subst hsep
-                  refine ⟨[x], rfl, Or.inr (Or.inr ?_)⟩
-                  exact ⟨l, l + 1 + idx, s, x, by omega, by omega, h1, hrow, hmissl, hmisss, hkfound, rfl,
-                    C01.getD_eq_gap hr⟩
-                | frag f' =>
-                  rw [hr] at hsep
-                  simp only at hsep
-                  cases hj : b.joinGap with
-                  | none => rw [hj] at hsep; cases hsep
-                  | some j =>
-                    rw [hj] at hsep
-                    simp only [Except.ok.injEq] at hsep
-                    subst hsep
-                    exact ⟨[j], rfl, Or.inr (Or.inl ⟨j, rfl, rfl⟩)⟩
+                  exact ⟨[j], rfl, Or.inr ⟨j, rfl, rfl⟩⟩
           obtain ⟨M, rfl, hsrc⟩ := hM
           intro t ht
           have e : out ++ M.map Row.gap ++ [Row.frag f] = O ++ .frag fl :: (M.map Row.gap ++ .frag f :: []) := by
@@ -199,7 +180,7 @@ theorem missFold (b : Build) (rows : List Row) : ∀ (n s : Nat), s + n = rows.l
       rw [← e]; exact this
 
 /-- every run of the left-over scaffold built from one input scaffold is a run of that input scaffold (same gap rows),
-    or carries the join gap, or comes from the fall-back rule -/
+    or carries the join gap (model after fix 9be92a2: there is no fall-back rule any more) -/
 theorem missingRows_runs (b : Build) (rows out : List Row) (first : Option Nat)
     (h : missingRows b rows = .ok (out, first)) : ∀ t ∈ gapRuns out, RunSrc b.found b.joinGap rows t := by
   rw [C01.missingRows_eq] at h
